@@ -55,6 +55,7 @@ func Kind(v interface{}, present bool) string {
 type Shape struct {
 	Depth     int      // remaining nesting depth for maps
 	Keys      []string // keys a map may have at each level
+	SubKeys   []string // keys of nested maps (default: Keys)
 	Nulls     bool
 	Ints      bool
 	Bools     bool
@@ -133,6 +134,9 @@ func Map(tag string, sh Shape) map[string]interface{} {
 	m := map[string]interface{}{}
 	sub := sh
 	sub.Depth = sh.Depth - 1
+	if sh.SubKeys != nil {
+		sub.Keys = sh.SubKeys
+	}
 	for _, k := range sh.Keys {
 		if v, ok := Value(tag+"."+k, sub); ok {
 			m[k] = v
